@@ -78,7 +78,7 @@ func generated(rng *lib.Rng) []Prog {
 	add("record-fromgo-method", `(def w (weather type:"delightful" size:888)) (def c2 (_method (snoopy cry:"yeah!") EchoWeather: w)) (str c2)`, "site:callgo.go:CallGoMethodFunction", "site:hashutils.go:fillHashHelper")
 	add("record-fromgo-type", `(def w (weather type:"delightful" size:888)) (def c2 (_method (snoopy cry:"yeah!") EchoWeather: w)) (type? (aget c2 0))`, "site:callgo.go:CallGoMethodFunction")
 	add("record-method-call", `(_method (snoopy cry:"yeah!") Fly: (weather type:"awesomesauce"))`, "site:callgo.go:CallGoMethodFunction")
-	add("record-methodls", `(def s (snoopy)) [(methodls s) (fieldls s)]`)
+	add("record-methodls", `(def s (snoopy)) [(methodls s) (fieldls s) (methodls (weather)) (fieldls (hornet))]`, "both-after")
 	add("record-nested-two-names", `(def no (nestouter inner:(nestinner hello:"hi"))) [(str no) (togo no)]`, "site:hashutils.go:fillHashHelper", "two-names")
 	add("record-nested-field-type", `(def no (nestouter inner:(nestinner hello:"hi"))) (togo no) (def i no.inner) [(type? i) (str i)]`, "site:hashutils.go:fillHashHelper", "two-names")
 	add("record-nested-fromshadow", `(def no (nestouter inner:(nestinner hello:"hi"))) (togo no) (str (fromgo no))`, "site:hashutils.go:fillHashHelper", "two-names")
@@ -117,9 +117,29 @@ func generated(rng *lib.Rng) []Prog {
 	dec("zkeyorder", `{"Atype":"hash","qqd":4,"qqa":1,"qqc":3,"qqb":2,"zKeyOrder":["qqd","qqa","qqc","qqb"]}`)
 	dec("zkeyorder-nested", `{"Atype":"hash","rrd":{"Atype":"hash","ssb":1,"ssa":2,"zKeyOrder":["ssb","ssa"]},"rra":1,"rrc":3,"rrb":2,"zKeyOrder":["rrd","rra","rrc","rrb"]}`)
 	add("decode-new-names-msgpack", "(def d (unmsgpack (msgpack (unjson (raw `{\"Atype\":\"hash\",\"ttd\":4,\"tta\":1,\"ttc\":3,\"ttb\":2,\"zKeyOrder\":[\"ttd\",\"tta\",\"ttc\",\"ttb\"]}`))))) (def ks (keys d)) [(str d) (symnum (aget ks 0)) (symnum (aget ks 1)) (symnum (aget ks 2)) (symnum (quote afterwards))]", "site:jsonmsgp.go:decodeGoToSexpHelper", "decode-intern-order")
+	// a program that edits in place what builtins returned, then asks again (a second fresh
+	// interpreter of the same process must start from the same lists: compare run 0 with run 1)
+	add("edit-returned-lists", `(def s (snoopy)) (def ml (methodls s)) (aset ml 0 "edited") (def fl (fieldls s)) (aset fl 0 "edited") (def tl (typelist)) (aset tl 0 "edited") (def ks (keys (hornet speed:1 mass:2.5))) (aset ks 0 (quote edited)) [(methodls (snoopy)) (fieldls (snoopy)) (aget (typelist) 0) (keys (hornet speed:1 mass:2.5))]`, "hash-copy", "both-after")
+	add("edit-returned-lists-error", `(def s (snoopy)) (aset (methodls s) 1 "edited") (aset (fieldls s) 1 "edited") (_method (snoopy) NoSuchMethod:)`, "error-candidates", "both-after")
+	// ordering and equality of hashes/records of one type that differ in several members
+	cmpLines := []string{
+		`(def h1 (hash a:1 b:9 c:5 d:"x" e:2.5))`, `(def h2 (hash a:9 b:1 c:5 d:"x" e:2.5))`, `(def h3 (hash a:1 b:9 c:5 d:7 e:0.5))`, `(def h4 (hash a:1 b:9 c:5 d:"x" e:2.5))`,
+		`(def r1 (hornet speed:1 mass:9.5 nickname:"a" SpanCm:3))`, `(def r2 (hornet speed:9 mass:1.5 nickname:"b" SpanCm:3))`, `(def r3 (hornet speed:"fast" mass:1.5 nickname:7 SpanCm:4))`,
+	}
+	for _, op := range []string{"<", ">", "<=", ">=", "==", "!="} {
+		for _, pr := range [][2]string{{"h1", "h2"}, {"h2", "h1"}, {"h1", "h3"}, {"h3", "h1"}, {"h1", "h4"}, {"h2", "h3"}, {"r1", "r2"}, {"r2", "r1"}, {"r1", "r3"}, {"r3", "r2"}, {"h1", "r1"}} {
+			cmpLines = append(cmpLines, fmt.Sprintf("(%s %s %s)", op, pr[0], pr[1]))
+			cmpLines = append(cmpLines, fmt.Sprintf("[(%s %s %s) (%s %s %s) (%s %s %s)]", op, pr[0], pr[1], op, pr[0], pr[1], op, pr[0], pr[1]))
+		}
+		cmpLines = append(cmpLines, fmt.Sprintf("(%s [h1 h2] [h2 h1])", op), fmt.Sprintf("(%s [1 h1 r1] [1 h3 r3])", op), fmt.Sprintf("(%s (list h1 h2) (list h2 h3))", op),
+			fmt.Sprintf("(%s (hash k:h1 m:h2) (hash k:h2 m:h1))", op))
+	}
+	add("cmpsweep-hashes", eachLinePrefix+strings.Join(cmpLines, "\n"), "compare", "error-candidates")
+	add("hash-compare-opposite", `(def h1 (hash a:1 b:9 c:3 d:8 e:5 f:6)) (def h2 (hash a:9 b:1 c:8 d:3 e:6 f:5)) [(< h1 h2) (> h1 h2) (<= h1 h2) (>= h1 h2) (== h1 h2) (!= h1 h2) (< h2 h1) (== [h1] [h2])]`, "compare")
+	add("hash-compare-incomparable", `(def h1 (hash a:1 b:"s" c:3 d:[1] e:5)) (def h2 (hash a:2 b:7 c:4 d:"t" e:6)) (== h1 h2)`, "compare", "error-candidates")
 	add("record-unknown-field", `(snoopy nosuchfield:1 alsonot:2 third:3)`, "error-candidates")
 	add("record-unknown-fields-togo", `(def s (snoopy cry:"a")) (hset s (quote zzz) 1) (hset s (quote yyy) 2) (hset s (quote xxx) 3) (togo s)`, "site:jsonmsgp.go:SexpToGoStructs", "error-candidates")
-	add("record-no-method", `(_method (snoopy) NoSuchMethod:)`, "error-candidates")
+	add("record-no-method", `(_method (snoopy) NoSuchMethod:)`, "error-candidates", "both-after")
 	add("record-setofplanes", `(def sp (setOfPlanes flyers:[(snoopy cry:"a") (hornet mass:1.5) (hellcat id:7)])) [(togo sp) (str sp)]`, "site:jsonmsgp.go:SexpToGoStructs")
 	// declared structs (process-global registry)
 	car := `(struct Car [(field Make: string e:0) (field Year: int64 e:1) (field Miles: float64 e:2)]) `
@@ -166,6 +186,12 @@ func generated(rng *lib.Rng) []Prog {
 	add("env-globals-hash-of-fns", `(def h (hash f:car g:cdr h:(fn [x] x))) (str h)`)
 	add("chars-raw", `[(str (raw "abc")) (str 'c') (str 1.5) (str (quote (a b c)))]`)
 	add("cli-countcalls", cliPrefix+`(def a (+ 1 2)) (def b (* a 3)) (def c (- b 1)) (def l (list a b c)) (def s (str l)) (len s) (car l) (cdr l) (append [1] 2) (concat "a" "b")`, "site:repl.go:sortedCountNames", "stdout", "cli")
+	// syntax sweeps: malformed (and a few well-formed) source texts through every whole-text entry
+	// point (EvalString, LoadStream, LoadString, ParseFile, the read builtin): the error text of the
+	// lexer/parser must be the same in every run
+	for _, sw := range syntaxSweeps() {
+		add(sw[0], syntaxPrefix+sw[1], "syntax-sweep", "error-candidates")
+	}
 	// error sweep: every builtin called with arguments whose Go representation holds pointers
 	// (hash, record, function, closure, array, package, pointer) in 1-3 positions; mostly errors.
 	// The text of every error (and every value) must be the same in every run.
@@ -204,4 +230,18 @@ func errorSweeps() [][2]string {
 		out = append(out, [2]string{"errsweep-" + k[0], sb.String()})
 	}
 	return out
+}
+
+func syntaxSweeps() [][2]string {
+	var chars, strs, structure []string
+	esc := "abcdefghijklmnopqrstuvwxyzABCXYZ0123456789 !#$%&()*+,-./:;<=>?@[]^_{|}~'\"\\"
+	for _, c := range esc {
+		chars = append(chars, "'\\"+string(c)+"'")
+		strs = append(strs, "\"a\\"+string(c)+"b\"")
+	}
+	chars = append(chars, "''", "'ab'", "'a", "'", "'\\", "'\\u12'", "'\\u00e9'", "'\\x4'", "'\\x41'", "'\\123'", "'\\U0001F600'", "'é'", "'\\n' '\\q'", "(list 'a' '\\q' 'b')", "[1 '\\z']", "{a:'\\k'}")
+	strs = append(strs, "\"abc", "\"", "\"\\u12\"", "\"\\x4\"", "\"\\U0001\"", "`abc", "(str \"a\\qb\")", "\"a\\\nb\"")
+	structure = []string{"(", ")", "(()", "())", "[1 2", "1 2]", "{a:1", "a:1}", "(1 . )", "( . 1)", "(1 . 2 3)", "#", "#!", "1.2.3", "0x", "0xZZ", "1e", "1e+", "0b102", "0o9", "12abc", "1ULL2", "-", "--", "~", "~@", "^", "^(", "(quote", "%", "%(", "$", "@", "&", "a:b:c", ":", "::", "a.", ".a", "a..b", "a.b.", "/* abc", "*/", "// only a comment", "(+ 1 /* x", "(def)", "(fn)", "(let)", "(let [a] a)", "(cond)", "(for)", "(for [1 2] 3)", "(defn)", "(defn f)", "(defmac)", "(begin", "(return)", "(break)", "(continue)", "(set 1 2)", "(def 1 2)", "(1 2 3)", "(\"s\" 1)", "{", "}", "{1 +}", "{+ 1}", "{1 + + 2}", "{a := }", "{a[}", "{a[1}", "{(}", "{a.}", "{1 2}", "(package)", "(package 1)", "(struct)", "(struct Zq9)", "(struct Zq9 [1])", "(func)", "(var)", "(var x)", "(interface)", "(method)", "(import)", "(include)", "(include 1)", "(source)", "(source 1)", "(macexpand)", "(eval)", "(eval (", "(read)", "(read 1)", "(hash a:)", "(hash a)", "{a:1 b}", "[1 2 . 3]", "\\", "\\a", "a\\b", "(a 'b)", "x'", "1'", "\\n\\n(\\n", "(def a 1)\\n(def b '\\q')\\n(def c 3)", "(+ 1 2) (", "(+ 1 2) ) (+ 3 4)", "\u0000", "\u00a0(+ 1 2)", "\ufeff(+ 1 2)", "(+ 1 2)\u2028", "ünï", "(def ü 1)", "\"\xff\"", "'\xff'"}
+	join := func(l []string) string { return strings.Join(l, "\n") }
+	return [][2]string{{"synsweep-chars", join(chars)}, {"synsweep-strings", join(strs)}, {"synsweep-structure", join(structure)}}
 }
